@@ -1,3 +1,4 @@
+import MdVerif.Proofs.DcdLemmas
 import MdVerif.Model.Writer
 /-!
 # C19 — incremental writing equals one-shot writing and survives a crash
@@ -150,3 +151,24 @@ example :
   decide
 
 end MdVerif.Writer
+
+/-! ## the frame count in the control record of a .dcd file being written (Model/Dcd.lean) -/
+namespace MdVerif.Dcd
+
+/-- **after every write call the control record counts the frames that are in the file** (what a reader of a file whose writer was killed
+relies on; the seeded change C19-dcd-header-count-at-powers-of-two broke it) -/
+theorem c19_dcd_header_counts (h0 : Header) (fs : List Frame) (h00 : h0.nset = 0) :
+    (fs.foldl appendFrame ⟨h0, []⟩).header.nset = fs.length ∧ (fs.foldl appendFrame ⟨h0, []⟩).frames = fs := by
+  have gen : ∀ (fl : File) (gs : List Frame), (gs.foldl appendFrame fl).header.nset = fl.header.nset + gs.length ∧
+      (gs.foldl appendFrame fl).frames = fl.frames ++ gs := by
+    intro fl gs
+    induction gs generalizing fl with
+    | nil => simp
+    | cons g gs ih =>
+      have := ih (appendFrame fl g)
+      simp only [List.foldl_cons, List.length_cons]
+      refine ⟨by rw [this.1]; simp [appendFrame]; omega, by rw [this.2]; simp [appendFrame]⟩
+  have := gen ⟨h0, []⟩ fs
+  simpa [h00] using this
+
+end MdVerif.Dcd
